@@ -5,7 +5,7 @@ CHECKS = {
         'what was registered before the Run/RunHandlers that starts it (router-level registrations after its AddHandler included, later ones excluded); publisher decorators act on outgoing batches '
         'and subscriber decorators on incoming messages in the order added, the latter after the Router\'s context decorator; registrations are never removed, a started handler is frozen until its own Stop, a RunHandlers in which a decorator constructor fails starts nobody and leaves nothing behind; the copy of r.middlewares in the handler goroutine is proved to be the linearisation point of a start (registered before it: in the chain, after: not) and forced on the real Router with hooks. Tied to the code on every run: ALL 1093 registration sequences up to length 6 '
         'over {router, A, B}, all decorator list lengths 0..5 x 0..5, and random programs (4 handlers, 20 registrations, variadic calls, before/after Run and RunHandlers) run on a real Router with '
-        'tagging middlewares/decorators; per-copy enter/exit/decorator traces are compared with the model and judged by the proved acceptor c09_monitor.'),
+        'tagging middlewares and decorators (the harness\'s wrappers and the library\'s own MessageTransform decorators, also on subscribers/publishers the application pre-decorated and shares between handlers); per-copy enter/exit/decorator traces are compared with the model and judged by the proved acceptor c09_monitor.'),
   note=('Trusted: Coq kernel + vm_compute; tagging middlewares/decorators of the harness (no defer: a panic skips the exit marks); sequential programs let each newly started handler process one message before registering further; window programs hold the goroutine before its copy of r.middlewares (C09_snapshot_linearisation). '
         'The godoc of AddPublisherDecorators ("the first decorator is the innermost") contradicts the code; the model follows the code: first added acts first.'),
   technique='Coq proof (list inductions over fold_right/fold_left wrapping loops, invariant of the registration state machine) + exhaustive and random differential correspondence check on a real Router',
